@@ -1063,6 +1063,13 @@ return 1;""",
                 declare=[wformat(declare0, fmt)],
                 post_call=[wformat(post_call0, fmt)],
             )
+            if build_format == "O" and typemap.PY_ctor and \
+               not typemap.PY_build_arg:
+                # The C++ value is not an object (void *).
+                # Py_BuildValue must be given the object made by PY_ctor.
+                build_format = "N"
+                vargs = fmt.py_var
+                blk = blk0
 
         return BuildTuple(build_format, vargs, blk0, blk, fmt.py_var)
 
